@@ -215,7 +215,9 @@ func (a *Act) instr(st *State, ins ssa.Instruction) {
 	case *ssa.Call:
 		a.call(st, x, x.Common())
 	case *ssa.Defer:
-		fail("defer is outside the supported subset")
+		if !isMutexDefer(x) {
+			fail("defer is outside the supported subset")
+		}
 	case *ssa.RunDefers:
 	case *ssa.Go, *ssa.Send, *ssa.Select, *ssa.MakeChan:
 		fail("%T is outside the supported subset (concurrency)", ins)
@@ -615,4 +617,18 @@ func (a *Act) constGlobal(st *State, g *ssa.Global) (Term, bool) {
 	}
 	a.u.Trusted["constant global "+g.Pkg.Pkg.Name()+"."+g.Name()+" (assigned once, in the package initialiser)"] = true
 	return t, true
+}
+
+// isMutexDefer: `defer mu.Unlock()` / `defer mu.RUnlock()` of a sync mutex. Locks are not modelled in the
+// sequential semantics (listed assumption), so deferring their release has no effect on the state.
+func isMutexDefer(x *ssa.Defer) bool {
+	f := x.Call.StaticCallee()
+	if f == nil || f.Pkg == nil || f.Pkg.Pkg.Path() != "sync" {
+		return false
+	}
+	switch f.Name() {
+	case "Unlock", "RUnlock":
+		return true
+	}
+	return false
 }
